@@ -408,3 +408,39 @@ def empty_test_before_trim(prog, chk, rule="A14.trim-then-test"):
                     if not trimmed_before:
                         chk.bad(rule, f"{b.short}:filter-then-trim", b.where(fb, ft.get("line")), f"{b.short} drops empty pieces before trimming them ({b.where(mb, mt.get('line'))} trims what the filter let through): a piece that consists of blanks only survives the filter and reaches the next stage as an empty string - a value with trailing (or only) white space is rejected instead of read")
     chk.note(f"{rule}: {n} emptiness filter(s) over string pieces")
+
+
+
+def affix_test_sees_what_parser_sees(prog, chk, rule="A14.trim-then-test"):
+    """a suffix / prefix test that decides how a string is read (`50%` is a ratio, `50` a length) is made on the text
+    the number parser will accept: where the same string goes on to a parser of the crate that trims its input, the
+    test is made on the trimmed string - or `"50% "` is no ratio for the test and no number for the parser"""
+    from sa import rules as R
+    from sa.prog import Callee, op_place
+
+    AFFIX = ("strip_suffix", "strip_prefix", "ends_with", "starts_with")
+    trimming = set()
+    for b in prog.bodies.values():
+        if b.unit == "svgdx-lib" and b.kind != "Closure" and b.argc == 1 and "&str" in (b.local_ty(1) or ""):
+            # a parser that trims its own parameter before anything else is done with it
+            for (bb, t, c) in b.call_sites(lambda c: c.path.split("::")[-1] == "trim" and "str" in c.path):
+                if t["args"] and R.origin_local(b, t["args"][0]) == 1:
+                    trimming.add(b.path)
+    n = 0
+    for b in prog.bodies.values():
+        if b.unit != "svgdx-lib":
+            continue
+        tests = b.call_sites(lambda c: c.path.split("::")[-1] in AFFIX and "<impl str>" in c.path)
+        parses = b.call_sites(lambda c: c.path in trimming)
+        if not tests or not parses:
+            continue
+        for (bb, t, c) in tests:
+            src = R.origin_local(b, t["args"][0]) if t["args"] else None
+            if src is None or not (1 <= src <= b.argc):
+                continue  # not the raw parameter (a trimmed copy, a piece of something else)
+            same = [(pb, pt) for (pb, pt, pc) in parses if pt["args"] and R.origin_local(b, pt["args"][0]) == src]
+            if not same:
+                continue
+            n += 1
+            chk.bad(rule, f"{b.short}:{c.path.split('::')[-1]}-untrimmed", b.where(bb, t.get("line")), f"{b.short} applies {c.path.split('::')[-1]}() to its parameter as given and hands the same string to {same[0][1]['fn']['path'].split('::')[-1]}(), which trims: with trailing (leading) white space the affix is not seen, the string is parsed as the other kind and fails - `dw=\"50% \"` is neither a ratio nor a number")
+    chk.ok(rule, "affix-scan", "-", f"affix tests on raw parameters that also reach a trimming parser: {n}")
